@@ -27,10 +27,23 @@ Definition sys_ok (L : limits) (s : lsys) : Prop := coherent (s_fs s) L (s_cache
 Lemma load_root_coherent fs L c root ov o : coherent fs L c -> load_root fs L c root ov = Some o ->
   coherent fs L (cache (o_st o)).
 Proof.
-  intros C H. unfold load_root in H.
-  destruct (match ov with Some f => Some f | None => flookup root fs end) as [f|]; [|inversion H; subst; exact C].
-  destruct (max_size L <? f_size f); [inversion H; subst; exact C|].
-  destruct (load_wc_cache_indep fs L _ _ _ _ c c o C C H) as (_ & _ & _ & K & _). exact K.
+  intros C H. pose proof (load_root_refines fs L c root ov C) as R. rewrite H in R. unfold root_refines in R.
+  destruct (ref_root fs L root ov); [|contradiction]. destruct R as (_ & _ & _ & K). exact K.
+Qed.
+
+(* one load: the result and the diagnostics do not depend on which coherent cache it starts with *)
+Lemma load_root_cache_indep fs L c1 c2 root ov o1 : coherent fs L c1 -> coherent fs L c2 ->
+  load_root fs L c1 root ov = Some o1 ->
+  exists o2, load_root fs L c2 root ov = Some o2 /\ o_res o1 = o_res o2 /\ o_errs o1 = o_errs o2.
+Proof.
+  intros C1 C2 H. unfold load_root in *.
+  destruct (match ov with Some f => Some f | None => flookup root fs end) as [f|];
+    [|inversion H; subst; eexists; split; [reflexivity|split; reflexivity]].
+  destruct (max_size L <? f_size f); [inversion H; subst; eexists; split; [reflexivity|split; reflexivity]|].
+  destruct (max_depth L <=? 0); [inversion H; subst; eexists; split; [reflexivity|split; reflexivity]|].
+  destruct (load_wc (fuel_for fs) fs L root (f_dirs f) (mkLS [] [] c1)) as [w1|] eqn:E1; [|discriminate].
+  destruct (load_wc_cache_indep fs L _ _ _ _ _ c1 c2 w1 C1 C2 E1) as (w2 & E2 & (R1 & R2 & _) & _).
+  rewrite E2. inversion H; subst o1. eexists. split; [reflexivity|]. cbn [o_res o_errs]. rewrite R1, R2. split; reflexivity.
 Qed.
 
 Lemma sys_ok_step L s op : sys_ok L s -> sys_ok L (fst (lsys_step L s op)).
@@ -53,14 +66,10 @@ Lemma step_is_fresh L s op sh fr : sys_ok L s ->
 Proof.
   unfold sys_ok. intros C H F. destruct op as [root|root f|k f|]; cbn [lsys_step fresh_of] in *; try discriminate.
   - destruct (load_root (s_fs s) L (s_cache s) root None) as [o|] eqn:E; cbn [snd] in H; [|discriminate]. inversion H; subst o.
-    unfold load_root in *. destruct (flookup root (s_fs s)) as [f|]; [|inversion E; inversion F; subst; auto].
-    destruct (max_size L <? f_size f); [inversion E; inversion F; subst; auto|].
-    destruct (load_wc_cache_indep _ L _ _ _ _ (s_cache s) [] sh C (coherent_nil _ _) E) as (o2 & E2 & (R1 & R2 & _) & _).
+    destruct (load_root_cache_indep _ L _ [] root None sh C (coherent_nil _ _) E) as (o2 & E2 & R1 & R2).
     rewrite E2 in F. inversion F; subst. auto.
   - destruct (load_root (s_fs s) L (s_cache s) root (Some f)) as [o|] eqn:E; cbn [snd] in H; [|discriminate]. inversion H; subst o.
-    unfold load_root in *.
-    destruct (max_size L <? f_size f); [inversion E; inversion F; subst; auto|].
-    destruct (load_wc_cache_indep _ L _ _ _ _ (s_cache s) [] sh C (coherent_nil _ _) E) as (o2 & E2 & (R1 & R2 & _) & _).
+    destruct (load_root_cache_indep _ L _ [] root (Some f) sh C (coherent_nil _ _) E) as (o2 & E2 & R1 & R2).
     rewrite E2 in F. inversion F; subst. auto.
 Qed.
 
